@@ -283,6 +283,13 @@ func (e *explorer) runNode(n node, counted bool) []node {
 			e.rep.Sample = []string{}
 		}
 	}
+	if os.Getenv("VRT_DEBUG_POINTS") != "" && n.parent == nil {
+		for i, p := range x.points {
+			if p.N > 1 {
+				fmt.Fprintf(os.Stderr, "point %d N=%d costs=%v sig=%x\n", i, p.N, p.Costs, p.Sig)
+			}
+		}
+	}
 	var kids []node
 	pts := x.points
 	for i := len(prefix); i < len(pts); i++ {
